@@ -441,9 +441,9 @@ def cmdWrite (args : List String) : String :=
     pure (v, prog)
   match p.run args with
   | some ((v, prog), []) =>
-    match Tdms.Model.Writer.writeProgram v prog with
+    match Tdms.Model.Writer.writeProgramChecked v prog with
     | some (d, i) => jObj [("ok", "true"), ("data", jHex d), ("index", jHex i)]
-    | none => jObj [("ok", "false"), ("err", jStr "duplicate")]
+    | none => jObj [("ok", "false"), ("err", jStr (if prog.all (Tdms.Model.Writer.sessionTypesOk []) then "duplicate" else "typechange"))]
   | _ => jObj [("ok", "false"), ("err", jStr "parse")]
 
 /-- `strict <hexdata> <hexindex|->` : the strict structural parser on bytes a writer emitted -/
